@@ -79,7 +79,8 @@ Idle == [pc |-> "done", a |-> 0, w |-> FALSE, x |-> 0, ret |-> NoRet]
 Call(pc0, a, w) == [pc |-> pc0, a |-> a, w |-> w, x |-> 0, ret |-> NoRet]
 
 \* SendWaker::wake_by(CREDIT) -- one critical section of the SendWaker mutex
-\* `changed`: the caller is a notifier that has (or should have) just made budget available.  The woken task may run at once
+\* `changed`: the caller is a notifier that has (or should have) just made budget available and the burst task cannot have
+\* used it up in the meantime (it was parked when the change was made, or no change was made yet).  The woken task may run at once
 \* (another worker thread): what it finds is the state at THIS moment, so the state change must precede the wake-up.
 Blocked(sh) == sh.state = NORMAL /\ sh.credit = 0          \* balance() would answer Err(CREDIT)
 WakeBy(sh, changed) ==
@@ -92,8 +93,9 @@ Step(k) ==
     LET c == k.c  sh == k.sh  Done(r) == [Idle EXCEPT !.ret = r] IN
     CASE \* ---- on_rcvd(a): load state; fetch_add(a * N); wake_by(CREDIT)
          c.pc = "r_load"   -> [c |-> IF sh.state = NORMAL THEN [c EXCEPT !.pc = "r_add"] ELSE Done(NoRet), sh |-> sh]
-      [] c.pc = "r_add"    -> [c |-> [c EXCEPT !.pc = "r_wake"], sh |-> [sh EXCEPT !.credit = @ + N * c.a]]
-      [] c.pc = "r_wake"   -> [c |-> Done(NoRet), sh |-> WakeBy(sh, c.a > 0)]
+      [] c.pc = "r_add"    -> [c |-> [c EXCEPT !.pc = "r_wake", !.x = IF sh.asleep THEN 1 ELSE 2],     \* x = 2: the burst task was running
+                               sh |-> [sh EXCEPT !.credit = @ + N * c.a]]                            \* and may consume the credit itself
+      [] c.pc = "r_wake"   -> [c |-> Done(NoRet), sh |-> WakeBy(sh, c.a > 0 /\ c.x # 2)]
          \* ---- balance(): load state; load credit; (credit = 0) load state again; (changed) wake_by
       [] c.pc = "b_load"   -> [c |-> IF sh.state = GRANTED THEN Done(RetMax)
                                       ELSE IF sh.state = ABORTED THEN Done(RetNone)
